@@ -151,9 +151,14 @@ type Reader struct {
 	lastRuneSize int // size of last rune read for UnreadRune; -1 means invalid
 }
 
+const minReadBufferSize = 16
 const maxConsecutiveEmptyReads = 100
 
 func NewReaderBuf(rd io.Reader, buf []byte) *Reader {
+	if len(buf) == 0 {
+		// fill cannot work on an empty buffer; bufio.NewReaderSize enforces a minimum size for the same reason
+		buf = make([]byte, minReadBufferSize)
+	}
 	r := new(Reader)
 	r.reset(buf, rd)
 	return r
